@@ -176,6 +176,21 @@ func c01Run(j *rt.Job, seed uint64, r *rt.Rec) {
 		sigs := 0
 		for k.GetIndex() < n {
 			cur := k.GetIndex()
+			if rng.Intn(8) == 0 {
+				// an operation the key must refuse (rewind / beyond the tree); signing continues afterwards
+				arg := n + uint32(rng.Intn(5))
+				if cur > 0 && rng.Bool() {
+					arg = uint32(rng.Intn(int(cur)))
+				}
+				o := rt.Call(func() { k.SetIndex(arg) })
+				r.Count("refused_ops_inside_walks_"+o.Kind, 1)
+				if k.GetIndex() != cur {
+					r.Violate("C01/refused-op-moved-index", fmt.Sprintf("SetIndex(%d) at index %d changed the index to %d", arg, cur, k.GetIndex()), XCase{Kind: "c01sig", Cfg: c, Way: "path", Path: append([]uint32(nil), path...), Idx: cur, Salt: "mixed"}, "", "")
+					return
+				}
+				path = append(path, refuseMark|arg&^signMark&^refuseMark)
+				continue
+			}
 			if rng.Bool() {
 				d := jumpDelta(rng, cur, n)
 				if maxs > 0 { // tall tree: spread the budget over the whole life
